@@ -49,5 +49,7 @@ INVARIANT C16_FinalizerOnly
 INVARIANT C16_SpecUntouched
 INVARIANT C16_NoOpNoRequest
 INVARIANT C16_Selected
+INVARIANT C16_Applied
+INVARIANT C16_AttachmentsOwnedMarked
 INVARIANT C17_CacheFrozen
 INVARIANT C17_HookSeesDelivered
